@@ -182,6 +182,46 @@ def h_roundtrip(ctx, kind, n=0, lens=()):
     ctx.observe("len", len(data))
 
 
+class _Prefixed:
+    """ctx facade whose inputs get a name prefix (a second, independent chunk in the same path)."""
+
+    def __init__(self, ctx, prefix):
+        self._ctx, self._prefix = ctx, prefix
+
+    def __getattr__(self, name):
+        f = getattr(self._ctx, name)
+        if name in ("int", "bool", "bytes", "str", "choice"):
+            return lambda nm, *a, **kw: f(self._prefix + nm, *a, **kw)
+        return f
+
+
+def h_roundtrip_twice(ctx, kind, n=0, lens=()):
+    """Two independent chunks of one class serialised and parsed one after the other in the same
+    process: the second round trip must not see anything of the first (no state shared between
+    chunk objects)."""
+    crc = CrcUF_or_counting()
+    with _Patch(sctp, **({"crc32c": crc} if crc else {})):
+        for tag, c in (("", ctx), ("b_", _Prefixed(ctx, "b_"))):
+            sport, dport, vtag = c.int("sport", 0, U16), c.int("dport", 0, U16), c.int("vtag", 0, U32)
+            chunk = _mk_chunk(c, kind, n, tuple(lens))
+            data = serialize_packet(sport, dport, vtag, chunk)
+            sp, dp, vt, chunks = parse_packet(data)
+            ctx.check(len(chunks) == 1 and type(chunks[0]) is type(chunk), "one-chunk-same-class")
+            c2 = chunks[0]
+            ctx.check(sx.deep_eq(_fields(c2), _fields(chunk)), "fields-equal-" + kind + ("-second-chunk" if tag else ""))
+            ctx.check(sx.eq(serialize_packet(sport, dport, vtag, c2), data), "reserialize-identical" + ("-second-chunk" if tag else ""))
+    ctx.reach("twice-done")
+    ctx.observe("ok", True)
+
+
+def CrcUF_or_counting():
+    if sx.active():
+        from sx.shims import CrcUF
+
+        return CrcUF()
+    return _CountingCrc()
+
+
 def h_reconfig_params(ctx, kind, n):
     if kind == "reset_out":
         p = StreamResetOutgoingParam(
@@ -408,6 +448,16 @@ HARNESSES = {
         encoded=ENC,
         stubs=["crc32c -> uninterpreted but deterministic function (Ackermann expansion)"],
         twin="parsed",
+    ),
+    "roundtrip-twice": Harness(
+        "roundtrip-twice",
+        h_roundtrip_twice,
+        lambda tier: [{"kind": "forward_tsn", "n": 2}, {"kind": "sack", "n": 2, "lens": [2]}, {"kind": "init", "lens": [1, 2]}, {"kind": "reconfig", "lens": [4]}, {"kind": "data", "n": 2}, {"kind": "error", "lens": [3]}],
+        style="RT (two instances in one process)",
+        bounds="two independent symbolic chunks of the same class (FORWARD-TSN with 2 streams, SACK with 2 gaps + 2 duplicates, INIT / RE-CONFIG / ERROR with parameters, DATA) round-tripped one after the other",
+        encoded=ENC,
+        stubs=["crc32c -> uninterpreted but deterministic function (Ackermann expansion)"],
+        twin="twice-done",
     ),
     "reconfig-params": Harness(
         "reconfig-params",
